@@ -1,23 +1,31 @@
 (* C16/Syntax.v — values, operator keys, the functions of Python's [operator] module that the
    three tables of mpf/core/placeholder_manager.py may name ("prims"), and the reference
-   semantics of Python's operators on the value domain None / bool / int / str.
+   semantics of Python's operators on the value domain None / bool / int / float / str / tuple.
 
-   Floats are NOT in the proved domain: an operation whose Python result is a float
-   (true division, ** with a negative exponent) or that is string formatting ('...%d' % x)
-   yields [Unsup]; the correspondence run never feeds such cases to the model (they are
-   counted) and the float behaviour is covered by the oracle-only suite of harness/props/c16.py.
+   FLOATS are finite IEEE-754 binary64 numbers carried as the exact rational they denote, in lowest
+   terms ([VFloat n d] = n/d, -0.0 is 0).  Every float operation is the exact rational operation
+   followed by an explicit round-to-nearest-even to 53 significant bits ([rnd53], the definition of
+   coq/C12/Base.v copied here), normal range only: a result of magnitude outside [2^-1000, 2^1000)
+   (overflow to inf / OverflowError, subnormals), inf and nan are [Unsup].  float ** and int ** negative
+   (C pow(), not correctly rounded by specification) and '%' string formatting are [Unsup] as well.
+   The correspondence run never feeds an [Unsup] case to the model (counted; the oracle-only part of
+   harness/props/c16.py exercises them on the implementation).
 
    Strings are lists of Unicode code points (Python compares strings by code point).
    Definitions only. *)
 From Common Require Import Prelude.
+From Coq Require Import QArith Qround Qabs.
 Open Scope Z_scope.
 
 Definition str := list Z.
 
-Inductive value := VNone | VBool (b : bool) | VInt (z : Z) | VStr (s : str).
+Inductive value :=
+  | VNone | VBool (b : bool) | VInt (z : Z) | VStr (s : str)
+  | VFloat (n : Z) (d : positive)          (* the finite double n/d, lowest terms *)
+  | VTuple (l : list value).
 
 (* result of applying one Python operator *)
-Inductive res := Val (v : value) | TypeErr | ZeroDiv | Unsup.
+Inductive res := Val (v : value) | TypeErr | ZeroDiv | IndexErr | Unsup.
 
 (* ---- AST node classes used as dictionary keys ------------------------------------------- *)
 Inductive opkey :=                       (* ast.operator and ast.unaryop *)
@@ -27,19 +35,126 @@ Inductive opkey :=                       (* ast.operator and ast.unaryop *)
 Inductive cmpkey := CEq | CNotEq | CLt | CLtE | CGt | CGtE | CIs | CIsNot | CIn | CNotIn.
 Inductive boolkey := BAnd | BOr.
 
+(* ast node classes that are keys of BasePlaceholderManager._eval_methods, and the walker methods *)
+Inductive nodekey :=
+  | NNum | NStr | NNameConstant | NConstant | NBinOp | NUnaryOp | NCompare | NBoolOp | NAttribute
+  | NSubscript | NName | NIfExp | NTuple | NList | NDict | NCall | NSet | NLambda | NJoinedStr.
+Inductive method :=
+  | M_eval_num | M_eval_str | M_eval_constant | M_eval_bin_op | M_eval_unary_op | M_eval_compare
+  | M_eval_bool_op | M_eval_attribute | M_eval_subscript | M_eval_name | M_eval_if | M_eval_tuple.
+Definition method_eqb (a b : method) : bool :=
+  match a, b with
+  | M_eval_num, M_eval_num | M_eval_str, M_eval_str | M_eval_constant, M_eval_constant
+  | M_eval_bin_op, M_eval_bin_op | M_eval_unary_op, M_eval_unary_op | M_eval_compare, M_eval_compare
+  | M_eval_bool_op, M_eval_bool_op | M_eval_attribute, M_eval_attribute
+  | M_eval_subscript, M_eval_subscript | M_eval_name, M_eval_name | M_eval_if, M_eval_if
+  | M_eval_tuple, M_eval_tuple => true
+  | _, _ => false
+  end.
+
 (* ---- functions of the [operator] module (values of the dictionaries) --------------------- *)
 Inductive prim :=
   | P_add | P_sub | P_mul | P_truediv | P_floordiv | P_mod | P_pow | P_xor | P_and_ | P_or_
   | P_neg | P_not_ | P_pos | P_invert
-  | P_eq | P_ne | P_lt | P_le | P_gt | P_ge.
+  | P_eq | P_ne | P_lt | P_le | P_gt | P_ge | P_contains.
 (* lambda a, b: <a|b> and/or <a|b> *)
 Inductive bprim := B_and | B_or | B_and_flip | B_or_flip.
+
+(* ---- binary64 rounding on exact rationals (copied from coq/C12/Base.v) -------------------------- *)
+Definition two_pow (e : Z) : Q :=
+  if 0 <=? e then inject_Z (2 ^ e) else Qmake 1 (Z.to_pos (2 ^ (- e))).
+
+Definition round_half_even (q : Q) : Z :=
+  let f := Qfloor q in
+  match Qcompare (q - inject_Z f)%Q (1 # 2)%Q with
+  | Lt => f
+  | Gt => f + 1
+  | Eq => if Z.even f then f else f + 1
+  end.
+
+Definition try_exp (a : Q) (e : Z) : option Q :=
+  let x := (a / two_pow e)%Q in
+  let m := Qfloor x in
+  if (2 ^ 52 <=? m) && (m <? 2 ^ 53)
+  then Some (inject_Z (round_half_even x) * two_pow e)%Q
+  else None.
+
+Definition rnd53_pos (a : Q) : Q :=
+  let e0 := Z.log2 (Qnum a) - Z.log2 (Zpos (Qden a)) - 52 in
+  match try_exp a e0 with
+  | Some r => r
+  | None =>
+      match try_exp a (e0 - 1) with
+      | Some r => r
+      | None => match try_exp a (e0 + 1) with Some r => r | None => a end
+      end
+  end.
+
+(* IEEE-754 binary64 round-to-nearest-even of an exact rational (normal range) *)
+Definition rnd53 (q : Q) : Q :=
+  match Qcompare q 0%Q with
+  | Eq => 0%Q
+  | Gt => rnd53_pos q
+  | Lt => (- rnd53_pos (- q))%Q
+  end.
+
+Definition in_fl_range (q : Q) : bool :=
+  Qle_bool (two_pow (-1000)) (Qabs q) && negb (Qle_bool (two_pow 1000) (Qabs q)).
+
+(* the double nearest to q, as a reduced rational; None outside the normal range *)
+Definition fl_round (q : Q) : option Q :=
+  if Qeq_bool q 0%Q then Some 0%Q
+  else if in_fl_range q then Some (Qred (rnd53 q)) else None.
+
+Definition mkfloat (q : Q) : res :=
+  match fl_round q with Some r => Val (VFloat (Qnum r) (Qden r)) | None => Unsup end.
+
+Definition Qtrunc (q : Q) : Z := if Qle_bool 0%Q q then Qfloor q else Qceiling q.
+Definition qneg (q : Q) : bool := match Qcompare q 0%Q with Lt => true | _ => false end.
+Definition qzero (q : Q) : bool := Qeq_bool q 0%Q.
+
+Definition obind {A B} (o : option A) (f : A -> option B) : option B :=
+  match o with Some a => f a | None => None end.
+
+(* C fmod: exact, sign of x *)
+Definition qfmod (x y : Q) : Q := Qred (x - inject_Z (Qtrunc (x / y)) * y)%Q.
+
+(* CPython Objects/floatobject.c _float_div_mod (wx <> 0): every C double operation is the exact
+   operation followed by fl_round; returns (floordiv, mod) *)
+Definition float_divmod (vx wx : Q) : option (Q * Q) :=
+  let mod0 := qfmod vx wx in
+  obind (fl_round (vx - mod0)%Q) (fun t =>
+  obind (fl_round (t / wx)%Q) (fun div0 =>
+  obind (if qzero mod0 then Some (0%Q, div0)
+         else if xorb (qneg wx) (qneg mod0)
+              then obind (fl_round (mod0 + wx)%Q) (fun m =>
+                   obind (fl_round (div0 - 1)%Q) (fun d => Some (m, d)))
+              else Some (mod0, div0)) (fun md =>
+  let '(md, div) := md in
+  if qzero div then Some (0%Q, md)
+  else let f := inject_Z (Qfloor div) in
+       obind (fl_round (div - f)%Q) (fun diff =>
+       match Qcompare (1 # 2)%Q diff with
+       | Lt => obind (fl_round (f + 1)%Q) (fun f' => Some (f', md))
+       | _ => Some (f, md)
+       end)))).
 
 (* ---- Python semantics ----------------------------------------------------------------------- *)
 Definition b2z (b : bool) : Z := if b then 1 else 0.
 
-Definition as_num (v : value) : option Z :=
-  match v with VBool b => Some (b2z b) | VInt z => Some z | _ => None end.
+Inductive num := NI (z : Z) | NF (q : Q).
+
+Definition as_num (v : value) : option num :=
+  match v with
+  | VBool b => Some (NI (b2z b))
+  | VInt z => Some (NI z)
+  | VFloat n d => Some (NF (n # d))
+  | _ => None
+  end.
+
+Definition num_q (x : num) : Q := match x with NI z => inject_Z z | NF q => q end.   (* exact value *)
+Definition num_fl (x : num) : option Q :=                                              (* float(x) *)
+  match x with NI z => fl_round (inject_Z z) | NF q => Some q end.
 
 Definition truthy (v : value) : bool :=
   match v with
@@ -47,107 +162,229 @@ Definition truthy (v : value) : bool :=
   | VBool b => b
   | VInt z => negb (z =? 0)
   | VStr s => match s with [] => false | _ => true end
+  | VFloat n _ => negb (n =? 0)
+  | VTuple l => match l with [] => false | _ => true end
   end.
 
-Definition str_repeat (s : str) (n : Z) : str :=
+Definition seq_repeat {A} (s : list A) (n : Z) : list A :=
   if n <=? 0 then [] else concat (repeat s (Z.to_nat n)).
 
-Fixpoint str_lt (s t : str) : bool :=
-  match s, t with
-  | _, [] => false
-  | [], _ :: _ => true
-  | x :: s', y :: t' => if x <? y then true else if y <? x then false else str_lt s' t'
+(* int op int stays int; anything with a float converts both operands to float and rounds the result *)
+Definition arith (fz : Z -> Z -> Z) (fq : Q -> Q -> Q) (a b : value) : option res :=
+  match as_num a, as_num b with
+  | Some (NI x), Some (NI y) => Some (Val (VInt (fz x y)))
+  | Some x, Some y =>
+      Some (match num_fl x, num_fl y with
+            | Some p, Some q => mkfloat (fq p q)
+            | _, _ => Unsup
+            end)
+  | _, _ => None
   end.
 
 Definition py_add (a b : value) : res :=
-  match as_num a, as_num b with
-  | Some x, Some y => Val (VInt (x + y))
-  | _, _ => match a, b with VStr s, VStr t => Val (VStr (s ++ t)) | _, _ => TypeErr end
+  match arith Z.add Qplus a b with
+  | Some r => r
+  | None => match a, b with
+            | VStr s, VStr t => Val (VStr (s ++ t))
+            | VTuple l, VTuple m => Val (VTuple (l ++ m))
+            | _, _ => TypeErr
+            end
   end.
 
 Definition py_sub (a b : value) : res :=
-  match as_num a, as_num b with Some x, Some y => Val (VInt (x - y)) | _, _ => TypeErr end.
+  match arith Z.sub Qminus a b with Some r => r | None => TypeErr end.
 
-Definition py_mul (a b : value) : res :=
-  match as_num a, as_num b with
-  | Some x, Some y => Val (VInt (x * y))
-  | Some n, None => match b with VStr s => Val (VStr (str_repeat s n)) | _ => TypeErr end
-  | None, Some n => match a with VStr s => Val (VStr (str_repeat s n)) | _ => TypeErr end
-  | None, None => TypeErr
+Definition seq_times (s : value) (n : num) : res :=
+  match n, s with
+  | NI k, VStr t => Val (VStr (seq_repeat t k))
+  | NI k, VTuple l => Val (VTuple (seq_repeat l k))
+  | _, _ => TypeErr
   end.
 
-(* int / int is a float in Python: outside the modelled domain unless it raises *)
+Definition py_mul (a b : value) : res :=
+  match arith Z.mul Qmult a b with
+  | Some r => r
+  | None => match as_num a, as_num b with
+            | Some n, None => seq_times b n
+            | None, Some n => seq_times a n
+            | _, _ => TypeErr
+            end
+  end.
+
+(* int / int is the correctly rounded quotient of the exact integers *)
 Definition py_truediv (a b : value) : res :=
   match as_num a, as_num b with
-  | Some x, Some y => if y =? 0 then ZeroDiv else Unsup
+  | Some (NI x), Some (NI y) => if y =? 0 then ZeroDiv else mkfloat (inject_Z x / inject_Z y)%Q
+  | Some x, Some y =>
+      match num_fl x, num_fl y with
+      | Some p, Some q => if qzero q then ZeroDiv else mkfloat (p / q)%Q
+      | _, _ => Unsup
+      end
   | _, _ => TypeErr
+  end.
+
+Definition float_dm (pick : Q * Q -> Q) (x y : num) : res :=
+  match num_fl x, num_fl y with
+  | Some p, Some q =>
+      if qzero q then ZeroDiv
+      else match float_divmod p q with Some r => mkfloat (pick r) | None => Unsup end
+  | _, _ => Unsup
   end.
 
 (* Coq's Z.div / Z.modulo are floor division and the remainder with the sign of the divisor,
    i.e. Python's // and % on ints *)
 Definition py_floordiv (a b : value) : res :=
   match as_num a, as_num b with
-  | Some x, Some y => if y =? 0 then ZeroDiv else Val (VInt (x / y))
+  | Some (NI x), Some (NI y) => if y =? 0 then ZeroDiv else Val (VInt (x / y))
+  | Some x, Some y => float_dm fst x y
   | _, _ => TypeErr
   end.
 
 Definition py_mod (a b : value) : res :=
   match a with
-  | VStr s => if existsb (Z.eqb 37) s then Unsup else TypeErr   (* 'abc' % x: not all arguments converted *)
+  | VStr s => if existsb (Z.eqb 37) s then Unsup               (* string formatting *)
+              else match b with VTuple [] => Val a | _ => TypeErr end   (* 'abc' % x: not all arguments converted, unless x = () *)
   | _ => match as_num a, as_num b with
-         | Some x, Some y => if y =? 0 then ZeroDiv else Val (VInt (x mod y))
+         | Some (NI x), Some (NI y) => if y =? 0 then ZeroDiv else Val (VInt (x mod y))
+         | Some x, Some y => float_dm snd x y
          | _, _ => TypeErr
          end
   end.
 
 Definition py_pow (a b : value) : res :=
   match as_num a, as_num b with
-  | Some x, Some y => if 0 <=? y then Val (VInt (x ^ y))
-                      else if x =? 0 then ZeroDiv else Unsup     (* float result *)
+  | Some (NI x), Some (NI y) => if 0 <=? y then Val (VInt (x ^ y))
+                                else if x =? 0 then ZeroDiv else Unsup     (* float result *)
+  | Some _, Some _ => Unsup                                                (* C pow() *)
   | _, _ => TypeErr
   end.
 
 Definition py_bitop (fb : bool -> bool -> bool) (fz : Z -> Z -> Z) (a b : value) : res :=
   match a, b with
   | VBool x, VBool y => Val (VBool (fb x y))
-  | _, _ => match as_num a, as_num b with Some x, Some y => Val (VInt (fz x y)) | _, _ => TypeErr end
+  | _, _ => match as_num a, as_num b with
+            | Some (NI x), Some (NI y) => Val (VInt (fz x y))
+            | _, _ => TypeErr
+            end
   end.
 Definition py_xor := py_bitop xorb Z.lxor.
 Definition py_and_ := py_bitop andb Z.land.
 Definition py_or_ := py_bitop orb Z.lor.
 
-Definition py_neg (a : value) : res := match as_num a with Some x => Val (VInt (- x)) | None => TypeErr end.
-Definition py_pos (a : value) : res := match as_num a with Some x => Val (VInt x) | None => TypeErr end.
-Definition py_invert (a : value) : res := match as_num a with Some x => Val (VInt (- x - 1)) | None => TypeErr end.
+Definition py_neg (a : value) : res :=
+  match a with
+  | VFloat n d => Val (VFloat (- n) d)
+  | _ => match as_num a with Some (NI x) => Val (VInt (- x)) | _ => TypeErr end
+  end.
+Definition py_pos (a : value) : res :=
+  match a with
+  | VFloat n d => Val a
+  | _ => match as_num a with Some (NI x) => Val (VInt x) | _ => TypeErr end
+  end.
+Definition py_invert (a : value) : res :=
+  match as_num a with Some (NI x) => Val (VInt (- x - 1)) | _ => TypeErr end.
 Definition py_not (a : value) : res := Val (VBool (negb (truthy a))).
 
-Definition py_eqb (a b : value) : bool :=
+(* == : numbers by exact value (an int and a float are compared without rounding), tuples elementwise *)
+Fixpoint py_eqb (a b : value) {struct a} : bool :=
   match as_num a, as_num b with
-  | Some x, Some y => x =? y
-  | _, _ => match a, b with
-            | VNone, VNone => true
-            | VStr s, VStr t => zs_eqb s t
-            | _, _ => false
-            end
+  | Some x, Some y => Qeq_bool (num_q x) (num_q y)
+  | _, _ =>
+      match a, b with
+      | VNone, VNone => true
+      | VStr s, VStr t => zs_eqb s t
+      | VTuple l, VTuple m =>
+          (fix go (l m : list value) : bool :=
+             match l, m with
+             | [], [] => true
+             | x :: l', y :: m' => py_eqb x y && go l' m'
+             | _, _ => false
+             end) l m
+      | _, _ => false
+      end
   end.
 Definition py_eq (a b : value) : res := Val (VBool (py_eqb a b)).
 Definition py_ne (a b : value) : res := Val (VBool (negb (py_eqb a b))).
 
-Definition py_order (fz : Z -> Z -> bool) (fs : str -> str -> bool) (a b : value) : res :=
-  match as_num a, as_num b with
-  | Some x, Some y => Val (VBool (fz x y))
-  | _, _ => match a, b with VStr s, VStr t => Val (VBool (fs s t)) | _, _ => TypeErr end
+Fixpoint str_compare (s t : str) : comparison :=
+  match s, t with
+  | [], [] => Eq
+  | [], _ :: _ => Lt
+  | _ :: _, [] => Gt
+  | x :: s', y :: t' => match x ?= y with Eq => str_compare s' t' | c => c end
   end.
-Definition py_lt := py_order Z.ltb str_lt.
-Definition py_le := py_order Z.leb (fun s t => negb (str_lt t s)).
-Definition py_gt := py_order Z.gtb (fun s t => str_lt t s).
-Definition py_ge := py_order Z.geb (fun s t => negb (str_lt s t)).
+
+(* three-way comparison; None = TypeError.  Tuples: the first pair of elements that are not ==
+   decides (and may raise), otherwise the lengths (CPython tuplerichcompare). *)
+Fixpoint py_compare (a b : value) {struct a} : option comparison :=
+  match as_num a, as_num b with
+  | Some x, Some y => Some (Qcompare (num_q x) (num_q y))
+  | _, _ =>
+      match a, b with
+      | VStr s, VStr t => Some (str_compare s t)
+      | VTuple l, VTuple m =>
+          (fix go (l m : list value) : option comparison :=
+             match l, m with
+             | [], [] => Some Eq
+             | [], _ :: _ => Some Lt
+             | _ :: _, [] => Some Gt
+             | x :: l', y :: m' => if py_eqb x y then go l' m' else py_compare x y
+             end) l m
+      | _, _ => None
+      end
+  end.
+
+Definition py_order (ok : comparison -> bool) (a b : value) : res :=
+  match py_compare a b with Some c => Val (VBool (ok c)) | None => TypeErr end.
+Definition py_lt := py_order (fun c => match c with Lt => true | _ => false end).
+Definition py_le := py_order (fun c => match c with Gt => false | _ => true end).
+Definition py_gt := py_order (fun c => match c with Gt => true | _ => false end).
+Definition py_ge := py_order (fun c => match c with Lt => false | _ => true end).
 
 Definition py_and (a b : value) : value := if truthy a then b else a.   (* a and b *)
 Definition py_or (a b : value) : value := if truthy a then a else b.    (* a or b *)
 
+(* a[i] on str / tuple with an int (or bool) index; negative indices count from the end *)
+Definition norm_index (i len : Z) : option Z :=
+  let j := if i <? 0 then i + len else i in
+  if (0 <=? j) && (j <? len) then Some j else None.
+
+Definition py_getitem (a i : value) : res :=
+  match a with
+  | VStr s =>
+      match as_num i with
+      | Some (NI k) => match norm_index k (Z.of_nat (length s)) with
+                       | Some j => Val (VStr [nth (Z.to_nat j) s 0])
+                       | None => IndexErr
+                       end
+      | _ => TypeErr
+      end
+  | VTuple l =>
+      match as_num i with
+      | Some (NI k) => match norm_index k (Z.of_nat (length l)) with
+                       | Some j => Val (nth (Z.to_nat j) l VNone)
+                       | None => IndexErr
+                       end
+      | _ => TypeErr
+      end
+  | _ => TypeErr
+  end.
+
+(* a in b *)
+Fixpoint zs_infix (s t : str) : bool :=
+  zs_prefixb s t || match t with [] => false | _ :: t' => zs_infix s t' end.
+Definition py_in (a b : value) : res :=
+  match b with
+  | VTuple l => Val (VBool (existsb (py_eqb a) l))
+  | VStr t => match a with VStr s => Val (VBool (zs_infix s t)) | _ => TypeErr end
+  | _ => TypeErr
+  end.
+Definition py_not_in (a b : value) : res :=
+  match py_in a b with Val (VBool r) => Val (VBool (negb r)) | r => r end.
+
 (* ---- the language's own operators, by AST node class (the REFERENCE) ---------------------------
-   Operators outside the supported grammar of the property are [Unsup]. *)
+   Operators outside the supported grammar of the property are [Unsup], except in / not in, whose
+   Python meaning is given although the code does not support them (see [supported_cmp]). *)
 Definition py_binop (o : opkey) (a b : value) : res :=
   match o with
   | KAdd => py_add a b | KSub => py_sub a b | KMult => py_mul a b | KDiv => py_truediv a b
@@ -159,7 +396,9 @@ Definition py_unop (o : opkey) (a : value) : res :=
 Definition py_cmp (o : cmpkey) (a b : value) : res :=
   match o with
   | CEq => py_eq a b | CNotEq => py_ne a b | CLt => py_lt a b | CLtE => py_le a b
-  | CGt => py_gt a b | CGtE => py_ge a b | _ => Unsup
+  | CGt => py_gt a b | CGtE => py_ge a b
+  | CIn => py_in a b | CNotIn => py_not_in a b
+  | _ => Unsup
   end.
 Definition py_boolop (o : boolkey) (a b : value) : value :=
   match o with BAnd => py_and a b | BOr => py_or a b end.
@@ -179,6 +418,7 @@ Definition prim_call2 (p : prim) (a b : value) : res :=
   | P_and_ => py_and_ a b | P_or_ => py_or_ a b
   | P_eq => py_eq a b | P_ne => py_ne a b | P_lt => py_lt a b | P_le => py_le a b
   | P_gt => py_gt a b | P_ge => py_ge a b
+  | P_contains => py_in b a                                 (* operator.contains(a, b) is  b in a *)
   | P_neg | P_not_ | P_pos | P_invert => TypeErr          (* takes exactly one argument *)
   end.
 Definition prim_call1 (p : prim) (a : value) : res :=
@@ -191,18 +431,26 @@ Definition bprim_call (p : bprim) (a b : value) : value :=
   | B_and => py_and a b | B_or => py_or a b | B_and_flip => py_and b a | B_or_flip => py_or b a
   end.
 
-(* ---- decidable equality used by the correspondence files ---------------------------------------- *)
-Definition value_eqb (a b : value) : bool :=
+(* ---- decidable (structural) equality used by the correspondence files --------------------------- *)
+Fixpoint value_eqb (a b : value) {struct a} : bool :=
   match a, b with
   | VNone, VNone => true
   | VBool x, VBool y => Bool.eqb x y
   | VInt x, VInt y => x =? y
   | VStr s, VStr t => zs_eqb s t
+  | VFloat n d, VFloat n' d' => (n =? n') && (Pos.eqb d d')
+  | VTuple l, VTuple m =>
+      (fix go (l m : list value) : bool :=
+         match l, m with
+         | [], [] => true
+         | x :: l', y :: m' => value_eqb x y && go l' m'
+         | _, _ => false
+         end) l m
   | _, _ => false
   end.
 Definition res_eqb (a b : res) : bool :=
   match a, b with
   | Val x, Val y => value_eqb x y
-  | TypeErr, TypeErr | ZeroDiv, ZeroDiv => true
+  | TypeErr, TypeErr | ZeroDiv, ZeroDiv | IndexErr, IndexErr => true
   | _, _ => false                                          (* Unsup never equals an observation *)
   end.
